@@ -113,7 +113,7 @@ FinalChecks(e) ==
     /\ Clause("truncation_before_box_rejected", e.min_accepted = 0 - 1 \/ e.min_accepted > LastLineStart(b))
     /\ Clause("accepted_truncation_exact", e.accepted_exact)
 
-TrFinal == /\ IsOp("final")
+TrFinal == /\ IsOp("final") /\ mode # "failed"
            /\ FinalChecks(Ev[l])
            /\ (Kind = "exact" =>
                  /\ Clause("final_matches_history",
@@ -127,6 +127,16 @@ TrFailed == /\ IsOp("failed") /\ mode = "failed"
             /\ Clause("failed_close_rejected", ~Ev[l].read_ok)
             /\ UNCHANGED vars
 
+(* the implementation carried on with the steps of close() although the specification's close had already
+   failed (declared count wrong): whatever those steps left on disk must still be rejected.  Without these
+   actions such a trace would simply stop being a behaviour and get no verdict. *)
+TrCloseAfterFailure ==
+    /\ mode = "failed" /\ Kind = "exact"
+    /\ \/ /\ IsOp("close2") /\ Clause("failed_close_rejected", ~Ev[l].read_ok)
+       \/ /\ IsOp("close3")
+       \/ /\ IsOp("final") /\ Clause("failed_close_rejected", ~Ev[l].read.ok)
+    /\ UNCHANGED vars
+
 (* a shipped coordinate file: every proper byte prefix (all of them for small files, a dense sample for large ones)
    opened with the real reader; box_start = offset of the last line, computed by the harness from the raw bytes *)
 TrShipped == /\ IsOp("shipped")
@@ -137,7 +147,7 @@ TrShipped == /\ IsOp("shipped")
              /\ UNCHANGED vars
 
 TraceNext == \/ TrShipped \/ TrSetTitle \/ TrSetNatoms \/ TrSetFormat \/ TrSetBox
-             \/ TrWrite \/ TrClose1 \/ TrClose2 \/ TrClose3 \/ TrFinal \/ TrFailed
+             \/ TrWrite \/ TrClose1 \/ TrClose2 \/ TrClose3 \/ TrFinal \/ TrFailed \/ TrCloseAfterFailure
 
 TraceSpec == TraceInit /\ [][TraceNext]_tvars
 
